@@ -271,6 +271,17 @@ class RequestTree:
                 wtxt = unparse(key_e)
                 # classify through the local definition too (new_nic_num = len(...))
                 wkind = wild_kind_of(wtxt)
+                if wkind == "other" and isinstance(key_e, ast.Attribute) and key_e.attr == "name":
+                    # by the static type of the object whose .name is the key (independent of what the local is called)
+                    if slot_name in SLOT_ELEMENT:
+                        wkind = "software"  # the slot holds Services / Applications (SLOT_ELEMENT), keyed by their registered name
+                    kc, ksh = func_types(self.ix, fn).expr_type(key_e.value)
+                    if kc is not None and ksh == "scalar":
+                        for base, kind in (("Software", "software"), ("Folder", "folder"), ("File", "file")):
+                            b = self.ix.cls_opt(base)
+                            if b is not None and self.ix.is_subclass(kc, b):
+                                wkind = kind
+                                break
                 if wkind == "other":
                     d = LocalDefs(fn.node).single(wtxt) if isinstance(key_e, ast.Name) else None
                     if d and d[0] is not None:
